@@ -105,7 +105,7 @@ def STS(nmax):
             out.append({'H_N': n, 'H_PREFIX': int(''.join(str(d) for d in pre) or '0')})
     return out
 H(id='C02_sts_import', property='C02', src='C02_import.cc', entry='h_sts_import', tu=['VTMF_CardSecret.cc', 'parse_helper.cc', 'mpz_helper.cc'], unwind=12,
-  defines={'VF_BITS': 15, 'MINISTL_STRING_MINCAP': 63}, timeout=400,
+  defines={'VF_BITS': 15, 'MINISTL_STRING_MINCAP': 63}, timeout=1200,
   desc='TMCG_StackSecret<VTMF_CardSecret>::import accepts exactly the bijective index vectors', symbolic='the last index digit (0..9); the preceding indices are enumerated by slices over 0..n',
   bounds='n = 1..2 (quick) / 1..3 (thorough); single-digit indices; card secret text fixed', slices=STS(2), tiers={'thorough': {'slices': STS(3), 'timeout': 1500}})
 
@@ -216,7 +216,7 @@ PROTO4('vtmf_mask', 'h_w_mask', 'masking proof presented for another message: ac
 PROTO4('vtmf_decrypt', 'h_w_decrypt', 'decryption share computed with a key other than the published one: accepted only if c == 0 (mod q)', 'both keys, replacement key, c_1, coins, digests')
 
 # ------------------------------------------------------------------ C01
-H(id='C01_cs_xor', property='C01', src='C01_card.cc', entry='h_cs_xor', tu=['SchindelhauerTMCG.cc', 'TMCG_CardSecret.cc', 'TMCG_PublicKey.cc', 'TMCG_Card.cc'], unwind=6, unwindset={'_ZNSt11char_traitsIcE6lengthEPKc.0': 64, '_ZNSs6appendEPKcm.1': 64}, timeout=600, replace=PROTO_REPLACE,
+H(id='C01_cs_xor', property='C01', src='C01_card.cc', entry='h_cs_xor', tu=['SchindelhauerTMCG.cc', 'TMCG_CardSecret.cc', 'TMCG_PublicKey.cc', 'TMCG_Card.cc'], unwind=6, unwindset={'_ZNSt11char_traitsIcE6lengthEPKc.0': 64, '_ZNSs6appendEPKcm.1': 64}, timeout=1200, replace=PROTO_REPLACE,
   defines={'VF_BITS': 12, 'H_MAXDRAWS': 40, 'H_DBITS': 4, 'MINISTL_STREAM_CAP': 128}, config={'TMCG_MAX_FPOWM_T': 8, 'TMCG_MAX_PLAYERS': 4, 'TMCG_MAX_TYPEBITS': 3},
   desc='quadratic-residue encoding: a fresh card secret preserves the type (bit columns XOR to 0) for k players', symbolic='all random bits of the other players (player count and masking player enumerated by slices)',
   bounds='k = 2,3,4 players (one query each), w = 2 type bits; moduli set to 1 so that masking values are concrete (the bit logic does not depend on them)', assumptions=PROTO_ASSUME, slices=[{'H_KPL': k, 'H_IDX': i} for k in (2, 3, 4) for i in range(k)], backend='kissat', memgb=8)
